@@ -316,10 +316,17 @@ def _print_record(rng, table, names, initial, style):
         acc = "[" + ",".join(str(i) for i in range(1, n + 1) if i % 2) + "]"
     else:
         acc = "[]"
-    return (f"_RWS.wa :={sp()}rec({sp()}isFSA := true,{sp()}alphabet := rec({sp()}type := \"identifiers\",{sp()}size := {len(names)},{sp()}format := \"dense\",{sp()}names := {nm}{sp()}),"
-            f"{sp()}states := rec({sp()}type := \"simple\",{sp()}size := {n}{sp()}),{sp()}flags := [\"DFA\",\"minimized\",\"BFS\",\"accessible\",\"trim\"],{sp()}initial := [{initial}],"
-            f"{sp()}accepting := {acc},{sp()}table := rec({sp()}format := \"dense deterministic\",{sp()}numTransitions := {sum(1 for r in table for x in r if x)},"
-            f"{sp()}transitions := [" + ("," + sp()).join(row(r) for r in table) + f"]{sp()}){sp()});\n")
+    fields = [f"isFSA := true",
+              f"alphabet := rec({sp()}type := \"identifiers\",{sp()}size := {len(names)},{sp()}format := \"dense\",{sp()}names := {nm}{sp()})",
+              f"states := rec({sp()}type := \"simple\",{sp()}size := {n}{sp()})",
+              f"flags := [\"DFA\",\"minimized\",\"BFS\",\"accessible\",\"trim\"]",
+              f"initial := [{initial}]",
+              f"accepting := {acc}",
+              f"table := rec({sp()}format := \"dense deterministic\",{sp()}numTransitions := {sum(1 for r in table for x in r if x)},{sp()}transitions := [" + ("," + sp()).join(row(r) for r in table) + f"]{sp()})"]
+    # GAP records are unordered: half of the records list their fields in a random order (kbmag's own order otherwise)
+    if rng.random() < 0.5:
+        fields = [fields[i] for i in rng.permutation(len(fields))]
+    return f"_RWS.wa :={sp()}rec({sp()}" + ("," + sp()).join(fields) + f"{sp()});\n"
 
 
 @bounded(P, "kbmag_records", functions=F_ALL, note="grammar-generated kbmag records: random tables, alphabets (single and multi-letter), spacing, interval syntax")
